@@ -137,6 +137,14 @@ CLAIMED.update({
             "§3 C14"),
 })
 
+CLAIMED.update({
+    "C18": ("model_checking",
+            "the caller's generator is the environment: a real std::mt19937 is scripted (state loaded through operator>> with inverted tempering) so the uniforms each sampler sees are enumerated on complete grids; explicit enumeration of all interleavings of 10 sampler letters up to depth 3 (quick) / 4 (thorough) from two seeds, every transition compared with the same call made first in a pristine process that loads the serialised generator state",
+            "Reproducibility and purity are statements about every generator state and every sequence of sampler calls: all sequences up to the bound are executed and each further call must produce the same output and leave the same generator state as in a pristine process started from the serialised state (so no sampler keeps hidden state or consults another entropy source: random_device, rand, random and getrandom are interposed and must stay at zero). The laws are decided exactly instead of statistically: Sample_Uniform is affine in the scripted uniform bit for bit, Sample_Gauss hits the normal quantile within the Kolmogorov distance implied by Inv_Erf's 1e-4, inverse-transform samples satisfy cdf(x)=u, rejection sampling returns the first pair under the density on a full grid of first trials, Sample_Poisson follows Knuth's product rule on every uniform sequence over a 12-letter grid up to length 5/6 (and on two-level sequences for means 600..5000), the Metropolis kernel is compared rule by rule on a grid of (start, proposal, acceptance) uniforms, and all (sample, thinning, burn_in) triples of the stated grid return exactly `sample` states of the reference chain at iterations >= burn_in spaced by thinning.",
+            "Scripted grids are finite (stratified u=(i+1/2)/m); a supplementary Kolmogorov-Smirnov test at 1e-9 on real streams (8 seeds) is included but is not what decides the property. Poisson sequences whose product ties with exp(-mean) within 1e-12 are skipped and counted.",
+            "§3 C18"),
+})
+
 NOT_APPLICABLE = {
 }
 
